@@ -245,10 +245,10 @@ def evaluate(tree, view: list, i: int, utc: bool) -> bool:
     if k == 'date':
         want = datetime.strptime(tree[2], '%d-%b-%Y').date()
         if tree[1].startswith('SENT'):
-            have = _date_of(m['sent'], '%a, %d %b %Y %H:%M:%S %z', utc)
+            have = _date_of(m['sent'], '%a, %d %b %Y %H:%M:%S %z', utc[1])
             op = tree[1][4:]
         else:
-            have = _date_of(m['internal'], '%d-%b-%Y %H:%M:%S %z', utc)
+            have = _date_of(m['internal'], '%d-%b-%Y %H:%M:%S %z', utc[0])
             op = tree[1]
         if op == 'BEFORE':
             return have < want
@@ -403,7 +403,11 @@ def run_search(case: dict, trace: bool = False) -> dict:
                 got = {cur[n - 1]['uid'] for n in nums}
             ok = False
             expected = []
-            for utc in (False, True):
+            # internal dates and sent dates may each be read in the
+            # value's own zone or in UTC (maildir keeps the internal date as
+            # a file time stamp, which has no zone)
+            for utc in ((False, False), (True, True), (True, False),
+                        (False, True)):
                 need = {cur[j]['uid'] for j in range(len(cur))
                         if cur[j]['uid'] not in hidden_uids
                         and evaluate(tree, cur, j, utc)}
@@ -416,7 +420,7 @@ def run_search(case: dict, trace: bool = False) -> dict:
             if not ok:
                 ctx.violate('C13', 'result', '%sSEARCH %s returned UIDs %s, '
                             'the evaluator says %s (own-zone dates) / %s '
-                            '(UTC dates); view %s, hidden %s' % (
+                            '(other readings); view %s, hidden %s' % (
                                 'UID ' if uid else '', toks_str(tree),
                                 sorted(got), expected[0], expected[-1],
                                 [v['uid'] for v in cur],
@@ -466,6 +470,7 @@ def first_key(tree) -> str:
 
 class C13(Profile):
     id = 'C13'
+    BACKENDS = ('dict', 'dict', 'dict', 'maildir')
     level = 'exploration'
     quick_budget_s = 40.0
     thorough_budget_s = 400.0
@@ -483,15 +488,18 @@ class C13(Profile):
             'expunges 1-2 messages first (either inclusion accepted for '
             'those). Non-trivial = >= 3 queries on a non-empty mailbox.')
     assumptions = C01.assumptions + [
-        '"disregarding time and timezone" is accepted under two readings: '
-        'the date in the value\'s own zone, or in UTC (whole program '
-        'evaluated under one reading)',
+        '"disregarding time and timezone" is accepted under two readings, '
+        'the date in the value\'s own zone or in UTC, chosen independently '
+        'for internal dates and for Date headers but fixed for the whole '
+        'program',
         'string keys are case-insensitive substring tests on the unfolded '
         'header value / body text; needles are alphanumeric words']
     components = C01.components
 
     def gen(self, rng, tier):
-        return gen_search_case(rng, tier)
+        from .common import backends, finish_cfg
+        return finish_cfg(gen_search_case(
+            rng, tier, backends=backends(self.BACKENDS)), rng)
 
     def run(self, case, trace=False):
         return run_search(case, trace)
